@@ -212,7 +212,12 @@ SierraOK(t, nc) == (DeclaresOn(local, t) \cap sierra) \subseteq nc
 RevertDefs ==
   LET h == Len(local) - 1 IN
   [c \in Classes |-> IF c \in DeclaresOn(Prefix(local, h), HeadTag(local)) /\ defs[c] = h THEN -1 ELSE defs[c]]
-\* trace validation: what the local state held while a request was out
+\* trace validation: what the local state held while a request was out.  A store (revert) that has taken effect
+\* but is not yet observable (the Stored / Reverted event follows) may as well fall on the other side of the request:
+\* what it added counts as "not always there", what it removed as "seen" - so that both orders of the request and
+\* the unobservable write lead to the same state.
+PendingAdded == IF sp.on /\ ~sp.acked THEN {c \in Classes : defs[c] = sp.h} ELSE {}
+PendingRemoved == IF rv.on /\ rv.st = "ack" THEN Mentions(rv.tag) \ MentionedOn(local) ELSE {}
 WinStore(q, kn) == IF Windows THEN [i \in 1..Len(q) |-> IF q[i].st = "wait" THEN [q[i] EXCEPT !.seen = @ \cup kn] ELSE q[i]] ELSE q
 WinRevert(q, kn) == IF Windows THEN [i \in 1..Len(q) |-> IF q[i].st = "wait" THEN [q[i] EXCEPT !.always = @ \cap kn] ELSE q[i]] ELSE q
 
@@ -346,7 +351,8 @@ FetchCheck(i) ==                      \* top of the retry loop: ctx not done (a 
 FetchCall(i, rid) ==                  \* observable: request BlockByNumber(h)
   /\ fq[i].st = "go"
   /\ SetFq(i, [fq[i] EXCEPT !.st = "wait", !.v0 = Len(versions), !.rid = rid,
-                             !.seen = IF Windows THEN Known ELSE {}, !.always = IF Windows THEN Known ELSE {}])
+                             !.seen = IF Windows THEN Known \cup PendingRemoved ELSE {},
+                             !.always = IF Windows THEN Known \ PendingAdded ELSE {}])
   /\ UNCHANGED <<srcVars, auxVars, clsVars, lifeVars, faults, local, cancelled, nextFetch, weff, vq, rv, sp, modeVars, curr, revSince, seenVers>>
 
 \* NewClasses of an answer.  src = "prod": computed by the data source from the local state.  As coded the lookup
@@ -369,13 +375,13 @@ FetchReturn(i, resp, nc, src) ==      \* observable: the answer is delivered (Bl
   /\ faults' = faults + BlockRespCost(fq[i].v0, fq[i].h, resp, cancelled)
   /\ seenVers' = Heard(resp)
   /\ IF resp.r = "err"
-     THEN SetFq(i, [fq[i] EXCEPT !.st = "chk"])
+     THEN SetFq(i, [fq[i] EXCEPT !.st = "chk", !.seen = {}, !.always = {}])
      ELSE SetFq(i, [fq[i] EXCEPT !.st = "done", !.kind = "block", !.blk = resp.tag, !.bh = HeightOf(resp.tag),
                                  !.bad = (resp.r = "bad"),
                                  !.forged = (resp.r = "fg" /\ RootBites(resp.tag, resp.corr)),
                                  !.alt = (resp.r \in {"bad", "fg"}),
                                  !.keep = (~VerdictPerAnswer /\ KeepsHash(resp)),
-                                 !.nc = nc])
+                                 !.nc = nc, !.seen = {}, !.always = {}])
   /\ UNCHANGED <<srcVars, auxVars, defs, lifeVars, local, cancelled, nextFetch, weff, vq, rv, sp, modeVars, curr, revSince>>
 
 IsRevFast(i) ==                       \* exit 1 (also: Height() fails on an empty chain)
